@@ -855,7 +855,7 @@ class SSHTunTapStreamSession(SSHSocketStreamSession[bytes], SSHTunTapSession):
 
         recv_buf = self._recv_buf[datatype]
 
-        while not self._eof_received:
+        while recv_buf or not self._eof_received:
             if recv_buf:
                 data = cast(bytes, recv_buf.pop(0))
                 self._recv_buf_len -= len(data)
